@@ -94,6 +94,24 @@ func genC20(g *Gen, tier string, idx int) *wire.Scenario {
 		return sc
 	}
 	sc.Script = g.c20Script(mode)
+	if idx%10 == 7 {
+		// one event while a command reads its argument key (the window of a listed finding: what is judged
+		// there is that the call itself goes on -- see the deadlock rule)
+		sc.Script = nil
+		for _, r := range Pick(g, []string{"ab", "abc a", "xa"}) {
+			sc.Script = append(sc.Script, tok(string(r), "self-insert"))
+		}
+		if mode == "vi" {
+			sc.Script = append(sc.Script, tok("\x1b", "vi-movement-mode"), tok(Pick(g, []string{"F", "T", "r", "f"}), "vi-arg-command"), tok("a", "arg-key"))
+		} else {
+			sc.Script = append(sc.Script, tok(Pick(g, []string{"\x16", "\x1b\x1d"}), "arg-command"), tok("a", "arg-key"))
+		}
+		sc.Script = append(sc.Script, tok("\r", "accept-line"))
+		sc.Plan = wire.Plan{Policy: "seeded", Class: "S0", Seed: g.Seed(), Sites: g.siteSubset(Pick(g, []int{10, 35, 70})),
+			Disturb: []wire.Disturb{{Kind: Pick(g, []string{"sigwinch", "printf", "sigwinch"}), Task: "main", Site: "argwait", Nth: 1}}}
+		sc.X = mustJSON(x)
+		return sc
+	}
 	isearch := false
 	compThenType := false
 	if mode == "emacs" && g.P(12) {
@@ -286,6 +304,13 @@ func execC20(x *Ctx, sc *wire.Scenario) *wire.Result {
 	// (2) no deadlock, no task left stuck
 	switch out.End {
 	case "DEADLOCK":
+		if !fine && coarseWindow == "while-reading-an-argument-key" && strings.Contains(out.Blocked, "main:blocked-internally") {
+			// in this window the unchanged tree hands the report or the key to the wrong reader (the command is
+			// aborted, another goroutine may stay blocked), but the call itself always goes on: the main loop
+			// blocked for good is another failure and keeps a name of its own
+			return violation(res, "DEADLOCK", "C20.no-deadlock", "deadlock:main-loop-blocked|while-reading-an-argument-key",
+				fmt.Sprintf("disturbances %v: the main loop itself is blocked for ever, Readline can never return: %s", firedList, out.Blocked))
+		}
 		return violation(res, "DEADLOCK", "C20.no-deadlock", name("deadlock"+dsig(out.Blocked)),
 			fmt.Sprintf("disturbances %v: no event enabled and Readline neither returned nor is parked in a terminal read: %s", firedList, out.Blocked))
 	case "LIVELOCK", "BUDGET":
